@@ -19,6 +19,8 @@ inductive Op where
   | failat (k : Nat) | failfrom (k : Nat) | failoff
   | end_
   | hInit | hAdd (id : Nat) (key : Int) | hMin | hDelmin | hFree
+  /-- `ptrheap_create` from the array of the given elements `(id, key)` (N ≥ 0 of them) -/
+  | hCreate (els : List (Nat × Int))
   | regImm (id prio : Nat) | cancelImm (id : Nat)
   | regTm (id : Nat) (usec : Int) | cancelTm (id : Nat)
   | regNet (id fd : Nat) (w : Bool) | cancelNet (fd : Nat) (w : Bool)
@@ -66,6 +68,16 @@ def keyFn (keys : List (Nat × Int)) (e : Nat) : Int :=
 def MAXID : Nat := 4096
 /-- descriptors the harness can name -/
 def MAXFD : Nat := 64
+
+/-- no id occurs twice -/
+def distinct : List Nat → Bool
+  | [] => true
+  | x :: r => !r.contains x && distinct r
+
+/-- a `h_create` line the harness does not carry out: an id it cannot name, or an id named twice (the pointers
+handed to `ptrheap_create` are distinct objects) -/
+def createSkip (els : List (Nat × Int)) : Bool :=
+  els.any (fun p => decide (p.1 ≥ MAXID)) || !distinct (els.map (·.1))
 
 structure MState where
   heap : Option (List Nat) := none
@@ -124,6 +136,15 @@ def monStep (s : MState) (op : Op) (a : Ans) : MState × Verdict :=
     match s.heap with
     | none => (s, accept (a.isJust .skip) "answer without a heap")
     | some _ => ({ s with heap := none }, accept (a.head == .ok) "answer")
+  | .hCreate els =>
+    -- an existing heap is released first; the caller's keys are set before the call, whatever its outcome
+    if createSkip els then (s, accept (a.isJust .skip) "must be skipped") else
+    let keys := els ++ s.keys
+    if a.head == .ok then
+      if a.rfn == 0 then ({ s with heap := some (els.map (·.1)), keys := keys }, none)
+      else (s, some "ptrheap_create succeeded although an allocation it asked for was refused")
+    else if a.failRefused then ({ s with heap := none, keys := keys }, none)
+    else (s, some "ptrheap_create failed although no allocation was refused")
   -- ---------------------------------------------------------------- events
   | .regImm i prio =>
     if i ≥ MAXID || s.reg.hasId i then (s, accept (a.isJust .skip) "must be skipped") else
